@@ -64,7 +64,7 @@ func (p *vPair) same(id string) {
 
 func vSeqLen() int {
 	if zzverif.Thorough() {
-		return 5
+		return 4
 	}
 	return 3
 }
